@@ -43,6 +43,14 @@ CHECKS = {
                      "C07_Fifo, C07_Accounting_Out/In per frame and C07_Drain at every quiescence point, in the strict (per-frame) reading and against the named "
                      "deviation model of the open finding.",
                 note="trusted: lock-step quiescence (a transfer that is not on the wire at Quiesce is held back); payload-to-message matching in the harness"),
+    "C08": dict(technique="TLC model checks: link-credit accounting in serial arithmetic (Credit.tla) and the implementation-shaped wait/notify race (CreditWake.tla, positive and negative variant); TLC-enumerated grant / drain / echo / send scripts (CreditGen.tla) executed lock-step, including scripts that park the sender at the cfg schedule point credit.after_failed_check while the grant is applied; traces validated by the TLA+ observer",
+                design="4/C08",
+                text="MC: deliveries started never exceed the limit of the last processed flow, drain is answered, for all flow histories with wrapping counts; the wait for "
+                     "credit always wakes when the future is created before the check and TLC refutes the check-then-create order (the run fails as a tool error if that "
+                     "refutation disappears). Conformance: depth-3 (thorough 4) scripts over a 10-event alphabet for delivery-counts at 1000 and next to 2^32, plus hook scripts "
+                     "replaying the dangerous interleaving against the real Consumer/Producer; C08_WithinCredit, C08_OnePerDelivery per frame, C08_Drain_Q / C08_Echo_Q / "
+                     "C08_Wake at every quiescence point.",
+                note="trusted: the schedule-point facade (fe2o3-amqp/src/verif.rs, add-only, cfg-guarded); lock-step quiescence"),
     "C12": dict(technique="TLC model check of the 2.4.6 connection state machine (ConnLife.tla, safety + leads-to under fairness); TLC-enumerated event scripts (ConnGen.tla) executed lock-step against the real client and listener; recorded traces validated by the TLA+ observer (Endpoint.tla / EndpointTrace.tla)",
                 design="4/C12",
                 text="MC: header first, one open before anything else, at most one close, nothing after it, no action on frames outside OPENED, peer close ~> close "
